@@ -38,7 +38,7 @@ type DetCase struct {
 	// Neighbours: other documents over the same schema (same fragment and variable names, other
 	// bodies), served with their own variables between repetitions
 	Neighbours []NeighbourReq `json:"neighbours,omitempty"`
-	Cache   bool                    `json:"cache"` // serve through a PlanCache as well
+	Cache      bool           `json:"cache"` // serve through a PlanCache as well
 	// CacheSize: MaxEntries of that cache (0 = the default); with 1-3 entries the interleaved requests,
 	// which then go through the cache too, evict the entry of the request under test between repetitions
 	CacheSize int `json:"cacheSize,omitempty"`
